@@ -42,6 +42,7 @@ type replySpec struct {
 	lease   []byte // raw option payload, nil: absent
 	extra   []dhcpmsg.DHCPOpt
 	op      byte
+	ipopts  []byte // IPv4 options (a multiple of 4 bytes) put between the fixed header and the UDP header
 }
 
 func (s replySpec) frame() []byte {
@@ -63,8 +64,20 @@ func (s replySpec) frame() []byte {
 		opts = append(opts, dhcpmsg.DHCPOpt{Option: 12, Data: []byte("x")})
 	}
 	m := dhcpmsg.Message{Op: s.op, Htype: 1, Xid: s.xid, YourIP: s.yiaddr, ClientMAC: s.chaddr, Cookie: dhcpmsg.DHCPCookie, Options: opts}
-	return layer.IPv4{TTL: 64, Protocol: s.proto, Source: net.IPv4(10, 0, 0, 1), Destination: net.IPv4bcast,
+	b := layer.IPv4{TTL: 64, Protocol: s.proto, Source: net.IPv4(10, 0, 0, 1), Destination: net.IPv4bcast,
 		Data: layer.UDP{SrcPort: 67, DstPort: uint16(s.dport), Data: m.Assemble()}.Assemble()}.Assemble()
+	if n := len(s.ipopts); n > 0 && n%4 == 0 && n <= 40 {
+		// the same datagram with IPv4 options: header length and total length grow, the header checksum is recomputed
+		nb := append(append(append([]byte(nil), b[:20]...), s.ipopts...), b[20:]...)
+		nb[0] = 0x40 | byte(5+n/4)
+		tl := len(nb)
+		nb[2], nb[3] = byte(tl>>8), byte(tl)
+		nb[10], nb[11] = 0, 0
+		c := ^RefSum16(nb[:20+n])
+		nb[10], nb[11] = byte(c>>8), byte(c)
+		b = nb
+	}
+	return b
 }
 
 type waitSpec struct {
@@ -276,6 +289,15 @@ func TestCliCatch(t *testing.T) {
 		sp := base(w)
 		sp.op = 1 // a BOOTREQUEST carrying everything else: the client does not look at op
 		run(w, sp, "op1")
+		// a genuine reply that travelled with IPv4 options (record route, padding …): the UDP header starts at IHL x 4; options
+		// whose bytes look like a UDP header "67 -> 68" must not be taken for one
+		for _, o := range [][]byte{{1, 1, 1, 0}, {7, 7, 4, 0, 0, 0, 0, 0}, {0, 67, 0, 68, 0, 8, 0, 0}, bytes.Repeat([]byte{1}, 40)} {
+			sp = base(w)
+			sp.ipopts = o
+			run(w, sp, "ip-options")
+			sp.dport = 1536 // … and one that is NOT for the DHCP client port, behind options that claim it is
+			run(w, sp, "ip-options-other-port")
+		}
 		sp = base(w)
 		sp.mtype = 6
 		run(w, sp, "nak")
@@ -726,13 +748,49 @@ func TestCliSan(t *testing.T) {
 			}
 		}
 		os.Remove(filepath.Join(root, "etc", "resolv.conf"))
-		if old != "" {
+		os.MkdirAll(filepath.Join(root, "run"), 0o755)
+		os.Remove(filepath.Join(root, "run", "resolv.conf"))
+		// on many systems /etc/resolv.conf is a symbolic link into /run; in a fifth of the runs it is one here
+		link := old != "" && r.Chance(20)
+		if link {
+			os.WriteFile(filepath.Join(root, "run", "resolv.conf"), []byte(old), 0o644)
+			os.Symlink("../run/resolv.conf", filepath.Join(root, "etc", "resolv.conf"))
+		} else if old != "" {
 			os.WriteFile(filepath.Join(root, "etc", "resolv.conf"), []byte(old), 0o600)
 		}
+		// … and in a sixth of the runs the hook may write no more than a few dozen bytes to any file (RLIMIT_FSIZE): the
+		// update fails half way, or the hook is killed; what a reader of /etc/resolv.conf then finds is the complete previous
+		// file or a complete new one (monitor-only case: the model is not told about the limit)
+		limit := 0
+		if old != "" && r.Chance(16) {
+			limit = Pick(r, 10, 30, 50)
+		}
 		cmd := exec.Command("/usr/sbin/chroot", root, "/psa-dhcpc", "-syshook")
+		if limit > 0 {
+			cmd = exec.Command("/usr/bin/prlimit", fmt.Sprintf("--fsize=%d", limit), "/usr/sbin/chroot", root, "/psa-dhcpc", "-syshook")
+		}
 		cmd.Env = env
 		outb, err := cmd.CombinedOutput()
 		got, rerr := os.ReadFile(filepath.Join(root, "etc", "resolv.conf"))
+		if limit > 0 {
+			var hx []string
+			for _, e := range env {
+				hx = append(hx, Hex([]byte(e)))
+			}
+			op := fmt.Sprintf("note resolv-limited fsize=%d symlink=%v previous=%d-bytes env=%s", limit, link, len(old), strings.Join(hx, ";"))
+			s.Op(op, "ok", true)
+			s.Count(fmt.Sprintf("chroot-limited/symlink=%v", link))
+			lines := strings.Split(string(got), "\n")
+			whole := rerr == nil && (string(got) == old || (len(lines) >= 3 && lines[0] == "# written by psa-dhcpc" && lines[len(lines)-1] == "" && len(got) <= limit))
+			if !whole {
+				for _, p := range []string{"C17", "C20"} {
+					s.Find(Finding{Property: p, Signature: "resolv-torn-after-failed-write", Stream: "clisan",
+						What:     "after an update that could not write its file completely, /etc/resolv.conf is neither the complete previous content nor a complete new file (generated resolv.conf is not header + at most one search line + nameserver lines)",
+						Ops:      []string{op}, Expected: strconv.Quote(old), Observed: strconv.Quote(string(got))})
+				}
+			}
+			continue
+		}
 		var hx []string
 		for _, e := range env {
 			hx = append(hx, Hex([]byte(e)))
